@@ -12,6 +12,7 @@ import os
 import shutil
 import sys
 import tempfile
+import copy
 import time
 import traceback
 
@@ -163,6 +164,30 @@ class Check:
             _drop(inp)
             _drop(out)
         return verdicts
+
+    def binding_selftest(self, module: str, obs: list[dict], verdicts: list[dict], corrupt, n: int = 4, env: dict | None = None):
+        """Binding self-test: take observations the judge accepted, corrupt ONE recorded field of each
+        (corrupt(o) returns the corrupted copy or None if it does not apply) and let the judge decide
+        again: every corrupted observation must be rejected, otherwise the judge is not looking at what
+        the code did and nothing it says can be believed (machinery failure, exit 2)."""
+        okids = {v["id"] for v in verdicts if v["v"] == "ok"}
+        picked = []
+        step = max(1, len(obs) // 200)
+        for o in obs[::step] + obs:
+            if o["id"] in okids and all(o["id"] != p["id"] for p in picked):
+                c = corrupt(copy.deepcopy(o))
+                if c is not None:
+                    picked.append(c)
+                    if len(picked) >= n:
+                        break
+        if not picked:
+            raise tlc.MachineryError(f"binding self-test of {module}: no accepted observation could be corrupted")
+        vs = self.judge(module, picked, nshards=1, env=env)
+        missed = [v["id"] for v in vs if v["v"] in ("ok", "unspec")]
+        if missed:
+            raise tlc.MachineryError(f"binding self-test of {module}: corrupted observations {missed} were accepted")
+        self.coverage.setdefault("binding_selftest", []).append({"judge": module, "corrupted_observations": len(picked), "rejected": len(picked),
+                                                                 "verdicts": sorted({v["v"] for v in vs})})
 
     # ---- verdict handling ------------------------------------------------------
     def absorb(self, verdicts: list[dict], by_id: dict, raw: dict | None = None):
